@@ -61,7 +61,7 @@ def check(run):
     r = gen.rng_for(run.seed, "c18")
     units, units_phf = [], []
     spec_by_unit = {}
-    n = 900 if thorough else 160
+    n = 3000 if thorough else 450
     for i in range(n):
         s = strgen.build(r, "R%d" % i, ["EnumString"], allow_default=False)
         if i % 5 == 4:
@@ -74,7 +74,7 @@ def check(run):
         u = shards.Unit("u_" + s.name.lower(), g, meta={"enum_src": s.render()}, sig=tag + "," + s.signature(), head=(strgen.CAPTURE_HEAD, ERR_HEAD))
         units.append(u)
         spec_by_unit[u.name] = s
-    for i in range(300 if thorough else 60):
+    for i in range(1000 if thorough else 180):
         s = strgen.build(r, "P%d" % i, ["EnumString"], allow_default=False, fieldless=True)
         s.use_phf = True
         s.std_derives = ["Debug", "PartialEq", "Clone"]
